@@ -6,10 +6,16 @@ package c09
 
 import (
 	"bytes"
+	"errors"
+	"fmt"
+	"io/fs"
 	"os"
 	"path/filepath"
+	"sync"
+	"sync/atomic"
 	"testing"
 
+	"verif/internal/ev"
 	"verif/internal/kf"
 )
 
@@ -126,8 +132,7 @@ func TestKnown_C09_BLOCKSEQ(t *testing.T) {
 	// exactly at 262144, + 1 byte.
 	full, ok := buildAligned(1, 0, 0)
 	if !ok {
-		t.Log("aligned payload could not be constructed on this tree; nothing to reproduce")
-		return
+		t.Log("aligned payload could not be constructed on this tree")
 	}
 
 	payload := full[:5*lz4Block+1]
@@ -190,7 +195,36 @@ func TestKnown_C09_BLOCKSEQ(t *testing.T) {
 			" and a nil error (stored " + describe(payload3) + ")"
 	}
 
-	knownOutcome(t, kfBlockSeq, truncRepro || swapRepro, truncDetail+swapDetail)
+	// (c) no special payload needed when a middle block is removed: 524272 incompressible bytes give cipher blocks of
+	// 262144, 262144 and 27 stream bytes; without the middle one the 27 bytes (23 data bytes + end mark) complete the LZ4
+	// block that was open at the end of the first cipher block.
+	sp := spec{Class: "cb2", Size: 2*cipherPlain - 16, Seed: 0, Comp: compRand}
+	payloadC := expand(sp)
+
+	if err := st.Set(id, bytes.NewReader(payloadC)); err != nil {
+		t.Fatal(err)
+	}
+
+	f, err := os.ReadFile(path)
+	if err != nil {
+		t.Fatal(err)
+	}
+
+	f = append(f[:payloadOff+cipherBlock], f[payloadOff+2*cipherBlock:]...)
+	if err := os.WriteFile(path, f, 0o600); err != nil {
+		t.Fatal(err)
+	}
+
+	got, gerr, p = safeGet(st, id)
+	if p != "" {
+		t.Fatalf("panic: %s", p)
+	}
+
+	dropRepro := gerr == nil && !bytes.Equal(got, payloadC)
+	dropDetail := "payload " + sp.String() + ", file bytes [27+262160, 27+524320) (the second of three cipher blocks) removed: Get returns " +
+		describe(got) + " and a nil error; "
+
+	knownOutcome(t, kfBlockSeq, dropRepro || truncRepro || swapRepro, dropDetail+truncDetail+swapDetail)
 }
 
 func firstLine(s string) string {
@@ -201,4 +235,100 @@ func firstLine(s string) string {
 	}
 
 	return s
+}
+
+// WriteControlledStore.releaseSyncRef decrements the reference count of an id's lock entry outside the table lock and
+// re-checks it afterwards: a release that was overtaken by a complete acquire/release of another goroutine removes a
+// lock entry that a third goroutine has just installed and is holding. From then on the same id is guarded by two
+// different RWMutexes and a reader runs next to a writer. This is a scheduling race: the regression is a bounded stress
+// loop (2 writers that Set through a yielding reader and Delete again, 6 readers; stops at the first incomplete read).
+func TestKnown_C09_WCS_REFRACE(t *testing.T) {
+	vals := [][]byte{bytes.Repeat([]byte("a"), 40960), bytes.Repeat([]byte("b"), 40970)}
+	detail := ""
+
+	for iter := 0; iter < ev.Pick(250, 600) && detail == ""; iter++ {
+		dir, err := os.MkdirTemp("", "c09-wcs-")
+		if err != nil {
+			t.Fatal(err)
+		}
+
+		st, err := openStore(dir, []byte("pass"), storeCfg{})
+		if err != nil {
+			t.Fatal(err)
+		}
+
+		var (
+			wg    sync.WaitGroup
+			left  atomic.Int64
+			mu    sync.Mutex
+			id    = mkID(1)
+			first string
+		)
+
+		left.Store(2)
+
+		for w := 0; w < 2; w++ {
+			w := w
+
+			wg.Add(1)
+
+			go func() {
+				defer wg.Done()
+				defer left.Add(-1)
+
+				for i := 0; i < 3; i++ {
+					if err := st.Set(id, &yieldReader{b: vals[w], chunk: 1024, yields: 20}); err != nil {
+						mu.Lock()
+						first = fmt.Sprintf("Set failed: %v", err)
+						mu.Unlock()
+					}
+
+					_ = st.Delete(id)
+				}
+			}()
+		}
+
+		for r := 0; r < 6; r++ {
+			wg.Add(1)
+
+			go func() {
+				defer wg.Done()
+
+				for g := 0; g < 100000 && left.Load() > 0; g++ {
+					b, err, p := safeGet(st, id)
+
+					var msg string
+
+					switch {
+					case p != "":
+						msg = "Get panicked: " + firstLine(p)
+					case err != nil && !errors.Is(err, fs.ErrNotExist):
+						msg = fmt.Sprintf("Get failed with %q (incomplete file seen)", err)
+					case err == nil && !bytes.Equal(b, vals[0]) && !bytes.Equal(b, vals[1]):
+						msg = "Get returned " + describe(b) + ", which is none of the values written"
+					}
+
+					if msg != "" {
+						mu.Lock()
+						if first == "" {
+							first = msg
+						}
+						mu.Unlock()
+
+						return
+					}
+				}
+			}()
+		}
+
+		wg.Wait()
+		_ = os.RemoveAll(dir)
+
+		if first != "" {
+			detail = fmt.Sprintf("round %d of the stress loop (2 writers Set 40 KiB values through a yielding reader and Delete, 6 "+
+				"readers, all through one WriteControlledStore): %s", iter, first)
+		}
+	}
+
+	knownOutcome(t, kfWCSRace, detail != "", detail)
 }
